@@ -14,7 +14,8 @@ RULE = ("colour specs: 8 names, every int 0..255, every (r,g,b) in 0..5^3, g0..g
         "enumerated completely as fg and as bg (part axis_enum, exhaustive) with all 32 effect subsets on a "
         "colour sample; Hypothesis draws fg x bg x effects(True/False/None) x no_color x printable texts "
         "(no ESC) for 1-5 chunks assembled into a CHText; invalid specs (out-of-range ints, malformed tuples, "
-        "g24/g-1/gx, unknown names, floats) must raise ValueError. Non-trivial = a chunk that uses a "
+        "g24/g-1/gx, unknown names, floats) must raise ValueError; part render_extend_history renders a text, extends it in "
+        "place with same- and other-coloured chunks and renders it again. Non-trivial = a chunk that uses a "
         "256-colour form, or >=2 effects, or a background; distinct by the list of chunk specs.")
 ASSUMPTIONS = [
     "basic colour k (30+k / 40+k) and 256-colour index k<8 are identified as the same colour",
@@ -55,6 +56,8 @@ def evaluate(case):
     import ak.color as C
     if "invalid" in case:
         return eval_invalid(case, C)
+    if "history" in case:
+        return eval_history(case)
     f = []
     chunks = case["chunks"]
     objs = []
@@ -144,6 +147,49 @@ def evaluate(case):
     return Outcome(any(_is_nt(c) for c in chunks), sorted(classes), f, key=key, evals=len(chunks) * 3 + 1)
 
 
+def eval_history(case):
+    """a text is rendered, extended in place, rendered again (and again): every rendering must show exactly
+    the characters and colours present at that moment"""
+    import ak.color as C
+    f = []
+    chunks = case["chunks"]
+    cuts = sorted(set(min(max(c, 0), len(chunks)) for c in case["history"]))
+    x = C.CHText()
+    exp = []
+    done = 0
+    classes = set(["render_extend_history"])
+    for cut in cuts + [len(chunks)]:
+        for c in chunks[done:cut]:
+            try:
+                ch = _mk(C.ColorFmt, c)(c["text"])
+            except Exception as e:   # noqa
+                return Outcome(False, sorted(classes), [("valid_spec_raises_" + type(e).__name__, f"{c!r}: {e}")])
+            if exp and c["text"] and exp[-1][1] == _expected_state(c):
+                classes.add("extend_merges_into_last_chunk_after_render")
+            x += ch
+            exp.extend((ch_, _expected_state(c)) for ch_ in c["text"])
+        done = cut
+        try:
+            s = str(x)
+            fs = format(x, "")
+            cells, final, _ = sgr.interpret(s)
+            if [(a, b) for a, b, _ in cells] != exp:
+                f.append(("stale_or_wrong_rendering_after_in_place_extension", f"{chunks[:done]!r} -> {s!r}"))
+            if fs != s:
+                f.append(("format_differs_from_str", f"{fs!r} vs {s!r}"))
+            if C.CHText.strip_colors(s) != x.plain_text() or x.plain_text() != "".join(a for a, _ in exp):
+                f.append(("strip_colors_differs_from_plain_text_after_extension", f"{s!r} vs {x.plain_text()!r}"))
+            if final != sgr.DEFAULT:
+                f.append(("not_default_after_text", repr(s)))
+        except sgr.Malformed as e:
+            f.append(("malformed_sequence", str(e)))
+        if f:
+            break
+    key = ["hist", [[c.get("fg"), c.get("bg"), sorted((c.get("eff") or {}).items()), c["text"] != ""] for c in chunks], cuts]
+    return Outcome("extend_merges_into_last_chunk_after_render" in classes or any(_is_nt(c) for c in chunks),
+                   sorted(classes), f, key=key, evals=len(cuts) + 1)
+
+
 def eval_invalid(case, C):
     inv = case["invalid"]
     spec = _spec(inv["spec"])
@@ -216,6 +262,14 @@ def st_case():
     return st.lists(st_chunk(), min_size=1, max_size=5).map(lambda cs: {"chunks": cs})
 
 
+def st_history():
+    few = st.sampled_from([None, "RED", "RED", 200, "g3"])
+    ch = st.fixed_dictionaries({"fg": few, "bg": st.sampled_from([None, None, "BLUE"]),
+                                "eff": st.sampled_from([{}, {}, {"bold": True}]), "text": st.text("ab ", max_size=3)})
+    return st.builds(lambda cs, h: {"chunks": cs, "history": h}, st.lists(ch, min_size=2, max_size=7),
+                     st.lists(st.integers(0, 7), min_size=1, max_size=4))
+
+
 def st_invalid():
     bad = st.one_of(
         st.integers(-10**6, -1), st.integers(256, 10**6),
@@ -236,6 +290,7 @@ def parts(tier):
              note="every colour spec as fg and as bg; all 32 effect subsets x 8 sample colours; fixed invalid pool"),
         Part("pairs", evaluate, strategy=st_case, examples=16000 * k),
         Part("invalid", evaluate, strategy=st_invalid, examples=4000 * k),
+        Part("render_extend_history", evaluate, strategy=st_history, examples=6000 * k),
     ]
 
 
